@@ -64,18 +64,33 @@ Definition norm_attr (a : attr) : list Z :=
 
 Definition expect_attr (a : attr) : etok := (TAttribute, Some (norm_attr a), Some (a_name a), Some (attr_value a)).
 
+
+(* pat occurs in l at i / nowhere in l *)
+Definition occurs_at (pat l : list Z) (i : Z) : Prop := forall j, 0 <= j < len pat -> getz l (i + j) = getz pat j.
+Definition no_occurrence (pat l : list Z) : Prop := forall i, 0 <= i -> i + len pat <= len l -> ~ occurs_at pat l i.
+
 (* DOCTYPE body: plain bytes, double- and single-quoted literals (which may contain '>' '[' ']' and the
-   other quote), internal subsets '[' ... ']' whose content may contain '>' and such literals *)
-Inductive dinner := DIChar (c : Z) | DIStr (s : list Z) | DIStrS (s : list Z).
+   other quote), internal subsets '[' ... ']' whose content may contain '>', such literals, comments
+   (any body without the three bytes - - >) and processing instructions (any body without ? >), and
+   declarations opened by '<' *)
+Definition pat_pi_end : list Z := [63; 62].
+Inductive dinner :=
+| DIChar (c : Z) | DIStr (s : list Z) | DIStrS (s : list Z)
+| DILt (k : list Z)            (* '<' followed by the bytes k that show it opens neither a comment nor a PI *)
+| DIComment (b : list Z) | DIPI (b : list Z).
 Inductive dpiece := DChar (c : Z) | DStr (s : list Z) | DStrS (s : list Z) | DSub (inner : list dinner).
 
 (* the content of a literal quoted by q *)
 Definition lit_ok (q : Z) (s : list Z) : Prop := Forall (fun c => c <> q /\ c <> 0) s.
+Definition plain_inner (c : Z) : Prop := c <> 34 /\ c <> 39 /\ c <> 93 /\ c <> 0 /\ c <> 60.
 Definition dinner_ok (p : dinner) : Prop :=
   match p with
-  | DIChar c => c <> 34 /\ c <> 39 /\ c <> 93 /\ c <> 0
+  | DIChar c => plain_inner c
   | DIStr s => lit_ok 34 s
   | DIStrS s => lit_ok 39 s
+  | DILt k => Forall plain_inner k /\ at_l [33; 45; 45] k = Some false /\ getz k 0 <> 63
+  | DIComment b => Forall (fun c => c <> 0) b /\ no_occurrence pat_comment_end b
+  | DIPI b => Forall (fun c => c <> 0) b /\ no_occurrence pat_pi_end b
   end.
 Definition dpiece_ok (p : dpiece) : Prop :=
   match p with
@@ -86,7 +101,14 @@ Definition dpiece_ok (p : dpiece) : Prop :=
   end.
 
 Definition render_dinner (p : dinner) : list Z :=
-  match p with DIChar c => [c] | DIStr s => [34] ++ s ++ [34] | DIStrS s => [39] ++ s ++ [39] end.
+  match p with
+  | DIChar c => [c]
+  | DIStr s => [34] ++ s ++ [34]
+  | DIStrS s => [39] ++ s ++ [39]
+  | DILt k => [60] ++ k
+  | DIComment b => dt_comment_open ++ b ++ pat_comment_end
+  | DIPI b => [60; 63] ++ b ++ pat_pi_end
+  end.
 Definition render_dpiece (p : dpiece) : list Z :=
   match p with
   | DChar c => [c]
@@ -151,9 +173,6 @@ Definition expect_item (it : item) : list etok :=
 Definition no_closer (pat body : list Z) : Prop :=
   forall i, 0 <= i < len body -> no_match_at pat (body ++ pat) i.
 
-(* pat occurs in l at i / nowhere in l *)
-Definition occurs_at (pat l : list Z) (i : Z) : Prop := forall j, 0 <= j < len pat -> getz l (i + j) = getz pat j.
-Definition no_occurrence (pat l : list Z) : Prop := forall i, 0 <= i -> i + len pat <= len l -> ~ occurs_at pat l i.
 
 Definition item_ok (it : item) : Prop :=
   match it with
@@ -356,23 +375,26 @@ Proof.
 Qed.
 
 (* ---- DOCTYPE --------------------------------------------------------------------------------------------------------------- *)
-(* x is moved over without changing the flags (not in a literal, inBrackets = inB) *)
-Definition dt_skip (inB : bool) (x : list Z) : Prop :=
-  forall r, scan_doctype 0 inB (x ++ r) = (rr <- scan_doctype 0 inB r ;; Some (len x + fst rr, snd rr)).
+(* add a to the count of a scan result *)
+Definition shiftn (a : Z) (o : option (Z * bool)) : option (Z * bool) := rr <- o ;; Some (a + fst rr, snd rr).
 
-Lemma bind_shift (o : option (Z * bool)) a b :
-  (r <- (rr <- o ;; Some (a + fst rr, snd rr)) ;; Some (b + fst r, snd r)) = (rr <- o ;; Some (b + a + fst rr, snd rr)).
-Proof. destruct o as [[n f]|]; cbn [option_bind fst snd]; [|reflexivity]. do 2 f_equal; lia. Qed.
+Lemma bump_shiftn o : bump o = shiftn 1 o. Proof. reflexivity. Qed.
+Lemma shiftn_shiftn a b o : shiftn a (shiftn b o) = shiftn (a + b) o.
+Proof. destruct o as [[n f]|]; cbn [shiftn option_bind fst snd]; [|reflexivity]. do 2 f_equal; lia. Qed.
+Lemma shiftn_0 o : shiftn 0 o = o.
+Proof. destruct o as [[n f]|]; reflexivity. Qed.
+Lemma shiftn_eq a b o : a = b -> shiftn a o = shiftn b o. Proof. intros ->. reflexivity. Qed.
+
+(* x is moved over without changing the state (not in a literal, not in a comment / PI, inBrackets = inB) *)
+Definition dt_skip (inB : bool) (x : list Z) : Prop :=
+  forall r, scan_doctype 0 0 inB 0 (x ++ r) = shiftn (len x) (scan_doctype 0 0 inB 0 r).
 
 Lemma dt_skip_nil inB : dt_skip inB [].
-Proof.
-  intros r. cbn [app]. destruct (scan_doctype 0 inB r) as [[n f]|]; cbn [option_bind fst snd]; [|reflexivity].
-  change (len (@nil Z)) with 0. do 2 f_equal.
-Qed.
+Proof. intros r. cbn [app]. change (len (@nil Z)) with 0. rewrite shiftn_0. reflexivity. Qed.
 
 Lemma dt_skip_app inB x y : dt_skip inB x -> dt_skip inB y -> dt_skip inB (x ++ y).
 Proof.
-  intros Hx Hy r. rewrite <- app_assoc. rewrite Hx, Hy. rewrite bind_shift. rewrite len_app. reflexivity.
+  intros Hx Hy r. rewrite <- app_assoc. rewrite Hx, Hy. rewrite shiftn_shiftn. rewrite len_app. reflexivity.
 Qed.
 
 Lemma dt_skip_concat {A} inB (f : A -> list Z) l : Forall (fun a => dt_skip inB (f a)) l -> dt_skip inB (concat (map f l)).
@@ -381,75 +403,199 @@ Proof.
   apply dt_skip_app; assumption.
 Qed.
 
+(* the pending bytes of a matched keyword are moved over blindly *)
+Lemma scan_pend x : forall q inB sk r,
+  scan_doctype (length x) q inB sk (x ++ r) = shiftn (len x) (scan_doctype 0 q inB sk r).
+Proof.
+  induction x as [|c x IH]; intros q inB sk r; cbn [length app].
+  - change (len (@nil Z)) with 0. rewrite shiftn_0. reflexivity.
+  - rewrite scan_doctype_stepS, IH, bump_shiftn, shiftn_shiftn, len_cons. reflexivity.
+Qed.
+
 (* inside a literal opened by q everything but q and NUL is moved over *)
 Lemma scan_dt_lit q inB s r : q <> 0 -> lit_ok q s ->
-  scan_doctype q inB (s ++ q :: r) = (rr <- scan_doctype 0 inB r ;; Some (len s + 1 + fst rr, snd rr)).
+  scan_doctype 0 q inB 0 (s ++ q :: r) = shiftn (len s + 1) (scan_doctype 0 0 inB 0 r).
 Proof.
   intros Hq Hs. assert (Eq : (q =? 0) = false) by lia.
   induction Hs as [|c s (Hc1 & Hc2) Hs IH]; cbn [app].
-  - rewrite scan_doctype_step. rewrite Z.eqb_refl, Eq. cbn [negb andb].
-    destruct (scan_doctype 0 inB r) as [[n f]|]; cbn [option_bind fst snd]; [|reflexivity].
-    change (len (@nil Z)) with 0. do 2 f_equal.
-  - rewrite scan_doctype_step. rewrite Eq. cbn [negb]. rewrite !andb_false_r. cbn [andb].
-    destruct (Z.eqb_spec c q); [congruence|]. destruct (Z.eqb_spec c 0); [congruence|]. cbn [andb].
-    rewrite IH. rewrite bind_shift. rewrite len_cons.
-    destruct (scan_doctype 0 inB r) as [[m f]|]; cbn [option_bind fst snd]; [|reflexivity].
-    do 2 f_equal; lia.
+  - rewrite scan_doctype_step0. rewrite Eq. change (0 =? 0) with true. rewrite (Z.eqb_refl q).
+    cbn [negb andb]. cbv iota. rewrite bump_shiftn. change (len (@nil Z)) with 0. apply shiftn_eq. lia.
+  - rewrite scan_doctype_step0. rewrite Eq. change (0 =? 0) with true. cbn [negb]. rewrite !andb_false_r. cbn [andb].
+    destruct (Z.eqb_spec c 0); [congruence|]. destruct (Z.eqb_spec c q); [congruence|]. cbn [andb option_bind].
+    cbv iota. rewrite IH, bump_shiftn, shiftn_shiftn, len_cons. apply shiftn_eq. lia.
 Qed.
 
 Lemma dt_skip_lit q inB s : q = 34 \/ q = 39 -> lit_ok q s -> dt_skip inB ([q] ++ s ++ [q]).
 Proof.
-  intros Hq Hs r. cbn [app]. rewrite scan_doctype_step. change (0 =? 0) with true. cbn [negb].
-  rewrite andb_false_r. replace ((q =? 34) || (q =? 39)) with true by lia. cbn [andb].
-  rewrite <- app_assoc. cbn [app]. rewrite scan_dt_lit by (try assumption; lia). rewrite bind_shift.
-  rewrite len_cons, len_app. change (len [q]) with 1.
-  destruct (scan_doctype 0 inB r) as [[m f]|]; cbn [option_bind fst snd]; [|reflexivity].
-  do 2 f_equal; lia.
+  intros Hq Hs r. cbn [app]. rewrite scan_doctype_step0. change (0 =? 0) with true. cbn [negb].
+  destruct (Z.eqb_spec q 0); [lia|]. rewrite andb_false_r. replace ((q =? 34) || (q =? 39)) with true by lia. cbn [andb].
+  cbv iota. rewrite <- app_assoc. cbn [app]. rewrite scan_dt_lit by (try assumption; lia).
+  rewrite bump_shiftn, shiftn_shiftn. apply shiftn_eq. rewrite len_cons, len_app. change (len [q]) with 1. lia.
+Qed.
+
+(* a byte that is looked at on its own: not a quote, not special at this nesting *)
+Lemma dt_skip_plain inB c : c <> 34 -> c <> 39 -> c <> 93 -> c <> 0 -> (inB = true -> c <> 60) ->
+  (inB = false -> c <> 91 /\ c <> 62) -> dt_skip inB [c].
+Proof.
+  intros H1 H2 H3 H5 H6 H7 r. cbn [app]. rewrite scan_doctype_step0. change (0 =? 0) with true. cbn [negb].
+  rewrite andb_false_r.
+  destruct (Z.eqb_spec c 0); [congruence|]. destruct (Z.eqb_spec c 34); [congruence|]. destruct (Z.eqb_spec c 39); [congruence|].
+  cbn [orb andb]. rewrite !andb_true_r.
+  assert (E60 : (c =? 60) && inB = false) by (destruct inB; [specialize (H6 eq_refl); lia|apply andb_false_r]).
+  rewrite E60. cbn [option_bind]. cbv iota.
+  destruct (Z.eqb_spec c 93); [congruence|]. rewrite orb_false_r.
+  destruct inB.
+  - destruct (Z.eqb_spec c 91) as [->|]; cbn [andb negb]; rewrite ?andb_false_r; rewrite bump_shiftn; reflexivity.
+  - destruct (H7 eq_refl) as (N91 & N62). destruct (Z.eqb_spec c 91); [congruence|]. destruct (Z.eqb_spec c 62); [congruence|].
+    cbn [andb]. rewrite bump_shiftn. reflexivity.
 Qed.
 
 Lemma dt_skip_char c : c <> 34 -> c <> 39 -> c <> 91 -> c <> 93 -> c <> 62 -> c <> 0 -> dt_skip false [c].
+Proof. intros. apply dt_skip_plain; try assumption; [discriminate|auto]. Qed.
+
+Lemma dt_skip_ichar c : plain_inner c -> dt_skip true [c].
+Proof. intros (H1 & H2 & H3 & H4 & H5). apply dt_skip_plain; try assumption; [auto|discriminate]. Qed.
+
+Lemma dt_skip_ichars k : Forall plain_inner k -> dt_skip true k.
 Proof.
-  intros H1 H1' H2 H3 H4 H5 r. cbn [app]. rewrite scan_doctype_step. change (0 =? 0) with true. cbn [negb].
-  rewrite andb_false_r.
-  destruct (Z.eqb_spec c 34); [congruence|]. destruct (Z.eqb_spec c 39); [congruence|].
-  destruct (Z.eqb_spec c 91); [congruence|].
-  destruct (Z.eqb_spec c 93); [congruence|]. destruct (Z.eqb_spec c 62); [congruence|].
-  destruct (Z.eqb_spec c 0); [congruence|]. cbn [orb andb negb].
-  destruct (scan_doctype 0 false r) as [[m f]|]; cbn [option_bind fst snd]; reflexivity.
+  intros H. induction H as [|c k Hc Hk IH]; [apply dt_skip_nil|].
+  change (c :: k) with ([c] ++ k). apply dt_skip_app; [apply dt_skip_ichar; exact Hc|exact IH].
 Qed.
 
-Lemma dt_skip_ichar c : c <> 34 -> c <> 39 -> c <> 93 -> c <> 0 -> dt_skip true [c].
+Lemma at_l_app_false pat : forall k r, at_l pat k = Some false -> at_l pat (k ++ r) = Some false.
 Proof.
-  intros H1 H1' H3 H5 r. cbn [app]. rewrite scan_doctype_step. change (0 =? 0) with true. cbn [negb].
-  rewrite andb_false_r.
-  destruct (Z.eqb_spec c 34); [congruence|]. destruct (Z.eqb_spec c 39); [congruence|].
-  destruct (Z.eqb_spec c 93); [congruence|].
-  destruct (Z.eqb_spec c 0); [congruence|]. rewrite !andb_false_r. cbn [negb andb orb].
-  destruct (Z.eqb_spec c 91) as [->|]; cbn [orb andb];
-    destruct (scan_doctype 0 true r) as [[m f]|]; cbn [option_bind fst snd]; reflexivity.
+  induction pat as [|p pt IH]; intros k r H; [discriminate|].
+  destruct k as [|c k]; [discriminate|]. cbn [app at_l] in *. destruct (c =? p); [apply IH; exact H|exact H].
+Qed.
+
+(* '<' inside the subset that opens neither a comment nor a processing instruction *)
+Lemma scan_dt_lt k r : Forall plain_inner k -> at_l [33; 45; 45] k = Some false -> getz k 0 <> 63 ->
+  scan_doctype 0 0 true 0 (60 :: k ++ r) = shiftn (1 + len k) (scan_doctype 0 0 true 0 r).
+Proof.
+  intros Hk Hat H63. rewrite scan_doctype_step0. change (60 =? 0) with false. change (0 =? 0) with true.
+  cbn [negb andb orb]. change (60 =? 34) with false. change (60 =? 39) with false. cbn [orb andb].
+  change (60 =? 60) with true. cbn [andb].
+  change (at_l dt_comment_open (60 :: k ++ r)) with (at_l [33; 45; 45] (k ++ r)).
+  rewrite (at_l_app_false _ _ r Hat). cbn [option_bind]. cbv iota.
+  destruct k as [|c1 k']; [discriminate|]. cbn [app]. rewrite getz_cons_0 in H63.
+  destruct (Z.eqb_spec c1 63); [congruence|]. cbn [option_bind]. cbv iota.
+  change (60 =? 91) with false. change (60 =? 93) with false. change (60 =? 62) with false. cbn [orb andb].
+  change (c1 :: k' ++ r) with ((c1 :: k') ++ r). rewrite (dt_skip_ichars _ Hk). rewrite bump_shiftn, shiftn_shiftn. reflexivity.
+Qed.
+
+Lemma dt_skip_lt k : Forall plain_inner k -> at_l [33; 45; 45] k = Some false -> getz k 0 <> 63 -> dt_skip true ([60] ++ k).
+Proof.
+  intros Hk Hat H63 r. cbn [app]. rewrite scan_dt_lt by assumption. apply shiftn_eq. rewrite len_cons. reflexivity.
+Qed.
+
+(* for a closer p q with p <> q: it starts inside body only if it occurs in body *)
+Lemma no_closer_pq p q body : p <> q -> no_occurrence [p; q] body -> no_closer [p; q] body.
+Proof.
+  intros Hpq Hno i Hi. unfold no_match_at. change (len [p; q]) with 2.
+  destruct (Z.le_gt_cases (i + 2) (len body)) as [Hin|Hout].
+  - destruct (Z.eq_dec (getz body i) p) as [E0|E0].
+    2:{ exists 0. split; [lia|]. rewrite getz_app1 by lia. replace (i + 0) with i by lia. exact E0. }
+    destruct (Z.eq_dec (getz body (i + 1)) q) as [E1|E1].
+    2:{ exists 1. split; [lia|]. rewrite getz_app1 by lia. exact E1. }
+    exfalso. apply (Hno i); [lia|change (len [p; q]) with 2; lia|].
+    intros j Hj. change (len [p; q]) with 2 in Hj.
+    assert (j = 0 \/ j = 1) as [->| ->] by lia; [replace (i + 0) with i by lia; exact E0|exact E1].
+  - exists 1. split; [lia|]. rewrite getz_app2 by lia. replace (i + 1 - len body) with 0 by lia.
+    change (getz [p; q] 0) with p. change (getz [p; q] 1) with q. exact Hpq.
+Qed.
+
+(* inside a comment / PI of the subset everything up to the closer is moved over *)
+Lemma scan_dt_skipto sk q inB body r : sk = 1 \/ sk = 2 -> Forall (fun x => x <> 0) body ->
+  no_closer (dt_skip_pat sk) body ->
+  scan_doctype 0 q inB sk (body ++ dt_skip_pat sk ++ r) =
+  shiftn (len body + len (dt_skip_pat sk)) (scan_doctype 0 q inB 0 r).
+Proof.
+  intros Hsk Hz. assert (Esk : negb (sk =? 0) = true) by lia.
+  induction Hz as [|x body Hx Hz IH]; intros Hno; cbn [app].
+  - change (len (@nil Z)) with 0.
+    destruct Hsk as [-> | ->].
+    + change (dt_skip_pat 1) with [45; 45; 62]. cbn [app]. rewrite scan_doctype_step0.
+      change (45 =? 0) with false. change (negb (1 =? 0)) with true. cbv iota.
+      change (dt_skip_pat 1) with [45; 45; 62]. change (at_l [45; 45; 62] (45 :: 45 :: 62 :: r)) with (Some true).
+      cbn [option_bind length Nat.sub]. rewrite !scan_doctype_stepS. unfold bump, shiftn.
+      destruct (scan_doctype 0 q inB 0 r) as [[m f]|]; cbn [option_bind fst snd]; [|reflexivity].
+      do 2 f_equal. unfold len. cbn [length]. lia.
+    + change (dt_skip_pat 2) with [63; 62]. cbn [app]. rewrite scan_doctype_step0.
+      change (63 =? 0) with false. change (negb (2 =? 0)) with true. cbv iota.
+      change (dt_skip_pat 2) with [63; 62]. change (at_l [63; 62] (63 :: 62 :: r)) with (Some true).
+      cbn [option_bind length Nat.sub]. rewrite !scan_doctype_stepS. unfold bump, shiftn.
+      destruct (scan_doctype 0 q inB 0 r) as [[m f]|]; cbn [option_bind fst snd]; [|reflexivity].
+      do 2 f_equal. unfold len. cbn [length]. lia.
+  - rewrite scan_doctype_step0. destruct (Z.eqb_spec x 0); [congruence|]. rewrite Esk.
+    assert (Hf : at_l (dt_skip_pat sk) (x :: body ++ dt_skip_pat sk ++ r) = Some false).
+    { apply at_l_false; [discriminate| |].
+      - intros j Hj. rewrite len_cons, !len_app. pose proof (len_nonneg body). pose proof (len_nonneg r). lia.
+      - destruct (Hno 0 ltac:(rewrite len_cons; pose proof (len_nonneg body); lia)) as (j & Hj & Hd).
+        exists j. split; [exact Hj|]. cbn [app] in Hd.
+        replace (x :: body ++ dt_skip_pat sk ++ r) with ((x :: body ++ dt_skip_pat sk) ++ r)
+          by (cbn [app]; rewrite <- app_assoc; reflexivity).
+        rewrite getz_app1; [exact Hd|]. rewrite len_cons, len_app. pose proof (len_nonneg body). lia. }
+    rewrite Hf. cbn [option_bind]. rewrite IH.
+    + rewrite bump_shiftn, shiftn_shiftn, len_cons. apply shiftn_eq. lia.
+    + intros i Hi. destruct (Hno (1 + i) ltac:(rewrite len_cons; lia)) as (j & Hj & Hd).
+      exists j. split; [exact Hj|]. cbn [app] in Hd. replace (1 + i + j) with (1 + (i + j)) in Hd by lia.
+      rewrite getz_cons_succ in Hd by lia. exact Hd.
+Qed.
+
+Lemma dt_skip_comment b : Forall (fun c => c <> 0) b -> no_occurrence pat_comment_end b ->
+  dt_skip true (dt_comment_open ++ b ++ pat_comment_end).
+Proof.
+  intros Hz Hno r. unfold dt_comment_open. cbn [app]. rewrite scan_doctype_step0.
+  change (60 =? 0) with false. change (0 =? 0) with true. cbn [negb andb orb].
+  change (60 =? 34) with false. change (60 =? 39) with false. cbn [orb andb]. change (60 =? 60) with true. cbn [andb].
+  change (at_l dt_comment_open (60 :: 33 :: 45 :: 45 :: (b ++ pat_comment_end) ++ r)) with (Some true).
+  cbn [option_bind]. cbv iota.
+  change (33 :: 45 :: 45 :: (b ++ pat_comment_end) ++ r) with ([33; 45; 45] ++ (b ++ pat_comment_end) ++ r).
+  change 3%nat with (length [33; 45; 45]). rewrite scan_pend. rewrite <- app_assoc.
+  change pat_comment_end with (dt_skip_pat 1).
+  rewrite (scan_dt_skipto 1 0 true b r) by (first [left; reflexivity | assumption | (apply (no_closer_ppq 45 62); [lia|exact Hno])]).
+  rewrite bump_shiftn, !shiftn_shiftn. apply shiftn_eq.
+  rewrite !len_cons, len_app. change (len (@nil Z)) with 0. lia.
+Qed.
+
+Lemma dt_skip_pi b : Forall (fun c => c <> 0) b -> no_occurrence pat_pi_end b ->
+  dt_skip true ([60; 63] ++ b ++ pat_pi_end).
+Proof.
+  intros Hz Hno r. cbn [app]. rewrite scan_doctype_step0.
+  change (60 =? 0) with false. change (0 =? 0) with true. cbn [negb andb orb].
+  change (60 =? 34) with false. change (60 =? 39) with false. cbn [orb andb]. change (60 =? 60) with true. cbn [andb].
+  change (at_l dt_comment_open (60 :: 63 :: (b ++ pat_pi_end) ++ r)) with (Some false).
+  cbn [option_bind]. cbv iota. change (63 =? 63) with true. cbv iota.
+  rewrite scan_doctype_stepS. rewrite <- app_assoc.
+  change pat_pi_end with (dt_skip_pat 2).
+  rewrite (scan_dt_skipto 2 0 true b r) by (first [right; reflexivity | assumption | (apply (no_closer_pq 63 62); [lia|exact Hno])]).
+  rewrite bump_shiftn, (bump_shiftn (shiftn _ _)), !shiftn_shiftn. apply shiftn_eq.
+  rewrite !len_cons, len_app. lia.
 Qed.
 
 Lemma dt_skip_dinner p : dinner_ok p -> dt_skip true (render_dinner p).
 Proof.
-  destruct p as [c|s|s]; cbn [dinner_ok render_dinner].
-  - intros (H1 & H2 & H3 & H4). apply dt_skip_ichar; assumption.
+  destruct p as [c|s|s|k|b|b]; cbn [dinner_ok render_dinner].
+  - apply dt_skip_ichar.
   - apply dt_skip_lit. auto.
   - apply dt_skip_lit. auto.
+  - intros (H1 & H2 & H3). apply dt_skip_lt; assumption.
+  - intros (H1 & H2). apply dt_skip_comment; assumption.
+  - intros (H1 & H2). apply dt_skip_pi; assumption.
 Qed.
 
 Lemma dt_skip_sub inner : Forall dinner_ok inner -> dt_skip false ([91] ++ concat (map render_dinner inner) ++ [93]).
 Proof.
-  intros H r. cbn [app]. rewrite scan_doctype_step. change (0 =? 0) with true.
-  change (91 =? 0) with false. change (91 =? 34) with false. change (91 =? 39) with false. change (91 =? 91) with true.
-  cbn [orb andb negb]. cbv iota. rewrite <- app_assoc.
+  intros H r. cbn [app]. rewrite scan_doctype_step0. change (0 =? 0) with true.
+  change (91 =? 0) with false. change (91 =? 34) with false. change (91 =? 39) with false. change (91 =? 60) with false.
+  change (91 =? 91) with true. cbn [orb andb negb option_bind]. cbv iota. rewrite <- app_assoc.
   assert (Hs : dt_skip true (concat (map render_dinner inner))).
   { apply dt_skip_concat. eapply Forall_impl; [|exact H]. intros p. apply dt_skip_dinner. }
-  rewrite Hs. cbn [app]. rewrite scan_doctype_step. change (0 =? 0) with true.
-  change (93 =? 0) with false. change (93 =? 34) with false. change (93 =? 39) with false. change (93 =? 93) with true.
-  change (93 =? 91) with false. cbn [orb andb negb]. cbv iota.
-  rewrite !bind_shift. rewrite len_cons, len_app. change (len [93]) with 1.
-  destruct (scan_doctype 0 false r) as [[m f]|]; cbn [option_bind fst snd]; [|reflexivity].
-  do 2 f_equal; lia.
+  rewrite Hs. cbn [app]. rewrite scan_doctype_step0. change (0 =? 0) with true.
+  change (93 =? 0) with false. change (93 =? 34) with false. change (93 =? 39) with false. change (93 =? 60) with false.
+  change (93 =? 93) with true. change (93 =? 91) with false. cbn [orb andb negb option_bind]. cbv iota.
+  unfold bump, shiftn. destruct (scan_doctype 0 0 false 0 r) as [[m f]|]; cbn [option_bind fst snd]; [|reflexivity].
+  do 2 f_equal. rewrite len_cons, len_app. change (len [93]) with 1. lia.
 Qed.
 
 Lemma dt_skip_dpiece p : dpiece_ok p -> dt_skip false (render_dpiece p).
@@ -462,13 +608,13 @@ Proof.
 Qed.
 
 Lemma scan_doctype_dt ps r : Forall dpiece_ok ps ->
-  scan_doctype 0 false (render_dt ps ++ 62 :: r) = Some (len (render_dt ps), true).
+  scan_doctype 0 0 false 0 (render_dt ps ++ 62 :: r) = Some (len (render_dt ps), true).
 Proof.
   intros H. assert (Hs : dt_skip false (render_dt ps)).
   { apply dt_skip_concat. eapply Forall_impl; [|exact H]. intros p. apply dt_skip_dpiece. }
-  rewrite Hs. rewrite scan_doctype_step. change (0 =? 0) with true. change (62 =? 0) with false.
-  change (62 =? 34) with false. change (62 =? 39) with false. change (62 =? 91) with false.
-  change (62 =? 93) with false. change (62 =? 62) with true. cbn [orb andb negb option_bind fst snd].
+  rewrite Hs. rewrite scan_doctype_step0. change (0 =? 0) with true. change (62 =? 0) with false.
+  change (62 =? 34) with false. change (62 =? 39) with false. change (62 =? 60) with false. change (62 =? 91) with false.
+  change (62 =? 93) with false. change (62 =? 62) with true. cbn [orb andb negb option_bind shiftn fst snd]. cbv iota.
   do 2 f_equal; lia.
 Qed.
 
@@ -895,11 +1041,14 @@ Theorem xml_wellformed_tokens_proof : forall items, doc_ok items ->
 Proof. intros items Hok. apply (lex_doc items [] None Hok). Qed.
 
 (* ---- non-vacuity: a document of the grammar ------------------------------------------------------------------------- *)
-(* <?xml version="1.0"?><!DOCTYPE a [<!ENTITY e "x>y">]><a b='c<TAB>d' e = "f"><!-- c --><![CDATA[]]]]>t<e />u</a > *)
+(* prolog; DOCTYPE a with an internal subset holding an ENTITY declaration (literal x>y), a comment whose body
+   is  ] dquote  and a PI  p ]'>  ; start tag a with b='c TAB d' and e = f; comment; CDATA ]]; text; empty
+   element; text; end tag.  (doc_ok of it is proved in Xml/Checker.v by evaluating the executable check) *)
 Definition ex_items : list item :=
   [ IPI [120; 109; 108] [mkAttr [32] [118; 101; 114; 115; 105; 111; 110] [] [] 34 [49; 46; 48]] [];
     IDoctype (map DChar [32; 97; 32] ++
-              [DSub (map DIChar [60; 33; 69; 78; 84; 73; 84; 89; 32; 101; 32] ++ [DIStr [120; 62; 121]] ++ [DIChar 62])]);
+              [DSub ([DILt [33; 69]] ++ map DIChar [78; 84; 73; 84; 89; 32; 101; 32] ++ [DIStr [120; 62; 121]] ++ [DIChar 62] ++
+                     [DIComment [32; 93; 34; 32]] ++ [DIPI [112; 32; 93; 39; 62]])]);
     IStart [97] [mkAttr [32] [98] [] [] 39 [99; 9; 100]; mkAttr [32] [101] [32] [32] 34 [102]] [] false;
     IComment [32; 99; 32];
     ICdata [93; 93];
@@ -908,42 +1057,9 @@ Definition ex_items : list item :=
     IText [117];
     IEnd [97] [32] ].
 
-Ltac ok_solve :=
-  repeat match goal with
-         | |- _ /\ _ => split
-         | |- Forall _ [] => apply Forall_nil
-         | |- Forall _ (_ :: _) => apply Forall_cons
-         | |- Forall _ (map _ _) => cbn [map]
-         | |- Forall _ (_ ++ _) => cbn [app map]
-         | |- _ \/ _ => first [left; reflexivity | right; reflexivity]
-         | |- _ = _ => reflexivity
-         | |- _ <> _ => discriminate
-         | |- dpiece_ok _ => cbn [dpiece_ok]
-         | |- dinner_ok _ => cbn [dinner_ok]
-         | |- attr_ok _ => unfold attr_ok; cbn [a_lead a_name a_ws1 a_ws2 a_q a_val]
-         | |- is_name _ _ => unfold is_name
-         | |- all_ws _ => unfold all_ws
-         | |- lit_ok _ _ => unfold lit_ok
-         end.
-
-Example ex_items_ok : doc_ok ex_items.
-Proof.
-  split.
-  - unfold ex_items. repeat apply Forall_cons; try apply Forall_nil; cbn [item_ok]; ok_solve.
-    + intros i H0 H1 Hocc. change (len pat_comment_end) with 3 in *. change (len [32; 99; 32]) with 3 in H1.
-      assert (i = 0) by lia. subst i. specialize (Hocc 0 ltac:(change (len pat_comment_end) with 3; lia)). vm_compute in Hocc. discriminate.
-    + intros i H0 H1 Hocc. change (len pat_cdata_end) with 3 in *. change (len [93; 93]) with 2 in H1. lia.
-  - cbn. intuition discriminate.
-Qed.
-
 Example ex_items_bytes :
   render_doc ex_items =
-  [60; 63; 120; 109; 108; 32; 118; 101; 114; 115; 105; 111; 110; 61; 34; 49; 46; 48; 34; 63; 62;
-   60; 33; 68; 79; 67; 84; 89; 80; 69; 32; 97; 32; 91; 60; 33; 69; 78; 84; 73; 84; 89; 32; 101; 32; 34; 120; 62; 121; 34; 62; 93; 62;
-   60; 97; 32; 98; 61; 39; 99; 9; 100; 39; 32; 101; 32; 61; 32; 34; 102; 34; 62;
-   60; 33; 45; 45; 32; 99; 32; 45; 45; 62;
-   60; 33; 91; 67; 68; 65; 84; 65; 91; 93; 93; 93; 93; 62;
-   116; 60; 101; 32; 47; 62; 117; 60; 47; 97; 32; 62].
+  [60; 63; 120; 109; 108; 32; 118; 101; 114; 115; 105; 111; 110; 61; 34; 49; 46; 48; 34; 63; 62; 60; 33; 68; 79; 67; 84; 89; 80; 69; 32; 97; 32; 91; 60; 33; 69; 78; 84; 73; 84; 89; 32; 101; 32; 34; 120; 62; 121; 34; 62; 60; 33; 45; 45; 32; 93; 34; 32; 45; 45; 62; 60; 63; 112; 32; 93; 39; 62; 63; 62; 93; 62; 60; 97; 32; 98; 61; 39; 99; 9; 100; 39; 32; 101; 32; 61; 32; 34; 102; 34; 62; 60; 33; 45; 45; 32; 99; 32; 45; 45; 62; 60; 33; 91; 67; 68; 65; 84; 65; 91; 93; 93; 93; 93; 62; 116; 60; 101; 32; 47; 62; 117; 60; 47; 97; 32; 62].
 Proof. vm_compute. reflexivity. Qed.
 
 Example ex_items_tokens : map (fun t => fst (fst (fst t))) (expect_doc ex_items) =
@@ -960,13 +1076,6 @@ Definition ex_doctype_squote : list Z :=
 Definition ex_squote_items : list item :=
   [ IDoctype (map DChar [32; 97; 32; 83; 89; 83; 84; 69; 77; 32] ++ [DStrS [120; 62; 121]]); IStart [97] [] [] true ].
 
-Example ex_squote_items_ok : doc_ok ex_squote_items.
-Proof.
-  split.
-  - unfold ex_squote_items. repeat apply Forall_cons; try apply Forall_nil; cbn [item_ok]; ok_solve.
-  - cbn. intuition discriminate.
-Qed.
-
 Example ex_squote_items_bytes : render_doc ex_squote_items = ex_doctype_squote.
 Proof. vm_compute. reflexivity. Qed.
 
@@ -975,15 +1084,8 @@ Proof. vm_compute. reflexivity. Qed.
 Definition ex_squote_items2 : list item :=
   [ IDoctype (map DChar [32; 97; 32; 80; 85; 66; 76; 73; 67; 32] ++ [DStrS [112; 34; 91]] ++ [DChar 32] ++
               [DStr [105; 116; 39; 115]] ++ [DChar 32] ++
-              [DSub (map DIChar [60; 33; 69; 78; 84; 73; 84; 89; 32; 101; 32] ++ [DIStrS [93; 34; 62; 91]] ++ [DIChar 62])]);
+              [DSub ([DILt [33; 69]] ++ map DIChar [78; 84; 73; 84; 89; 32; 101; 32] ++ [DIStrS [93; 34; 62; 91]] ++ [DIChar 62])]);
     IStart [97] [] [] true ].
-
-Example ex_squote_items2_ok : doc_ok ex_squote_items2.
-Proof.
-  split.
-  - unfold ex_squote_items2. repeat apply Forall_cons; try apply Forall_nil; cbn [item_ok]; ok_solve.
-  - cbn. intuition discriminate.
-Qed.
 
 (* <?p a>b?><a/> : a '>' in the content of a processing instruction closes it as a start tag would be *)
 Definition ex_pi_gt : list Z := [60; 63; 112; 32; 97; 62; 98; 63; 62; 60; 97; 47; 62].
